@@ -308,6 +308,50 @@ def part_convert(ctx, shard):
         import unyt
 
         c2 = Fraction(299792458) ** 2
+        # spectral: wavelength in m -> wavenumber in 1/cm = 1/(100 v): a reciprocal, which integer arithmetic would truncate to 0
+        for form, vals in groups:
+            nz = [v for v in vals if v not in (0, 0.0) and not isinstance(v, complex) and abs(v) < 2**53]
+            if d.kind == "c" or not nz:
+                continue
+            for rname in ("to_equivalent", "to(equivalence=)", "in_units(equivalence=)", "to_value(equivalence=)", "convert_to_equivalent"):
+                ctx.count("evaluations")
+                if form == "scalar":
+                    q = unyt_quantity(np.array(nz[0], dtype=dt)[()], "m")
+                    use = nz[:1]
+                else:
+                    data = np.array(nz, dtype=dt)
+                    q = unyt_array(data, "m")
+                    use = nz
+                f = {
+                    "to_equivalent": lambda: q.to_equivalent("1/cm", "spectral"),
+                    "to(equivalence=)": lambda: q.to("1/cm", equivalence="spectral"),
+                    "in_units(equivalence=)": lambda: q.in_units("1/cm", equivalence="spectral"),
+                    "to_value(equivalence=)": lambda: q.to_value("1/cm", equivalence="spectral"),
+                    "convert_to_equivalent": lambda: (q.convert_to_equivalent("1/cm", "spectral"), q)[1],
+                }[rname]
+                st, r, warned = run_call(f)
+                case = {"part": "convert", "dtype": dt, "route": rname, "from": "m", "to": "1/cm", "form": form, "values": [str(v) for v in use]}
+                base = f"C17|equivalence|eq=spectral|route={rname}|dtype={kcls(dt)}|form={'scalar' if form == 'scalar' else 'array'}"
+                ctx.outcome(("equiv-spectral", rname, dt, st, form))
+                if st == "raise":
+                    ctx.count("equivalence_refused")
+                    ctx.note_set("equivalence_refused", f"spectral|{rname}|{dt}|{type(r).__name__}")
+                    continue
+                ctx.decided(("equiv-spectral", rname, dt, form, tuple(map(str, use))))
+                arr = np.asarray(r.d if isinstance(r, unyt_array) else r)
+                if arr.dtype.kind != "f":
+                    ctx.violation(base + f"|mode=result-not-floating:{arr.dtype}", case, "float", str(arr.dtype))
+                    continue
+                for v, g in zip(use, arr.reshape(-1)):
+                    pv = int(v) if d.kind in "iu" else float(np.array(v, dtype=dt))
+                    want = Fraction(1) / (Fraction(pv) * 100)
+                    if abs(want) < float(np.finfo(arr.dtype).tiny) * 64:
+                        ctx.count("filtered_below_normal_range")
+                        continue
+                    if not close(g, want, arr.dtype, [want]) and not close(g, want, target_dtype(dt), [want]):
+                        trunc = float(g) == 0.0
+                        ctx.violation(base + ("|mode=integer-truncated" if trunc else "|mode=wrong-value"), case, str(float(want)), repr(g))
+                        break
         for form, vals in groups:
             if d.kind == "c":
                 continue
@@ -356,6 +400,8 @@ BIN = {
     "maximum": (np.maximum, max),
     "minimum": (np.minimum, min),
     "hypot": (np.hypot, None),
+    "floor_divide": (np.floor_divide, None),
+    "remainder": (np.remainder, None),
     "less": (np.less, lambda a, b: a < b),
     "equal": (np.equal, lambda a, b: a == b),
 }
@@ -368,7 +414,7 @@ def part_binary(ctx, shard):
     for dt0, dt1 in shard:
         d0, d1 = np.dtype(dt0), np.dtype(dt1)
         for (u0, u1, f1), (opname, (uf, pyf)) in itertools.product(BIN_PAIRS, BIN.items()):
-            if (d0.kind == "c" or d1.kind == "c") and opname in ("maximum", "minimum", "hypot", "less"):
+            if (d0.kind == "c" or d1.kind == "c") and opname in ("maximum", "minimum", "hypot", "less", "floor_divide", "remainder"):
                 continue
             v0 = BIN_VALS[d0.kind][0]
             v1 = BIN_VALS[d1.kind][1]
@@ -398,7 +444,7 @@ def part_binary(ctx, shard):
                 elif form == "operator":
                     import operator as op
 
-                    o = {"add": op.add, "subtract": op.sub, "less": op.lt, "equal": op.eq}[opname]
+                    o = {"add": op.add, "subtract": op.sub, "less": op.lt, "equal": op.eq, "floor_divide": op.floordiv, "remainder": op.mod}[opname]
                     call = lambda: o(a, b)
                 elif form == "inplace":
                     import operator as op
@@ -469,6 +515,20 @@ def part_binary(ctx, shard):
                             break
                         continue
                     want = {"add": x + y, "subtract": x - y, "maximum": max(x, y), "minimum": min(x, y)}.get(opname)
+                    if opname in ("floor_divide", "remainder"):
+                        if y == 0:
+                            continue
+                        if target_dtype(dt0).itemsize < 8 or target_dtype(dt1).itemsize < 8 or form in ("out", "out_is_b", "inplace") and flat.dtype.itemsize < 8:
+                            # floor and remainder are discontinuous: the rounding of a narrow float moves results across
+                            # integer boundaries; judged for 8-byte operands only
+                            ctx.count("floor_remainder_narrow_unjudged")
+                            continue
+                        fl = (x / y).__floor__()
+                        want = Fraction(fl) if opname == "floor_divide" else x - fl * y
+                        ratio = x / y
+                        if abs(ratio - round(ratio)) < Fraction(1, 10**6):
+                            ctx.count("floor_on_integer_boundary_unjudged")
+                            continue
                     # the converted (second) operand is rounded to its own float type, the result to the result type
                     e1 = float(np.finfo(target_dtype(dt1)).eps)
                     er = float(np.finfo(flat.dtype).eps)
@@ -486,7 +546,7 @@ def part_binary(ctx, shard):
                     tgt = np.asarray((a if form == "inplace" else b if form == "out_is_b" else buf).d)
                     if tgt.dtype.kind not in "fc":
                         ctx.violation(base + f"|mode=target-not-floating:{tgt.dtype}", case, "floating", str(tgt.dtype))
-                    elif not np.array_equal(tgt.reshape(-1), flat):
+                    elif not np.array_equal(tgt.reshape(-1), flat, equal_nan=True):
                         ctx.violation(base + "|mode=target-differs-from-result", case, flat.tolist(), tgt.reshape(-1).tolist())
 
 
